@@ -11,6 +11,9 @@ Three kinds of operations (one line each, self-contained):
                                                                          with /<host>/tcp/<port>[/p2p/<peer of key k>]
                                                                          (observation since round tcp3: `… ep=<host kind of the
                                                                          connection's endpoint address>`, judged by C10)
+  (round gtcp: `dialed=h<k>` / `exp=h<k>` = the SHA2-256 form PeerId::from_multihash(Sha2_256.digest(protobuf(key k))) of the id)
+  dl a=<s|r|k>{1..4} t=<ms> [cancel=<ms>]                               a real TcpTransport opens addresses that stall / refuse / answer;
+                                                                         the overall dial deadline (checks/tcp_poll.py; judged by C05)
   pn q=<items> [in=<n> acc=<0|1>] [neg=1]                                a real TcpTransport with scripted READY results in its queues,
                                                                          polled with a counting waker (checks/tcp_poll.py; judged by C05)
 Payloads are built here by hand (protobuf) with REAL ed25519 signatures obtained from the adapter's `sign`/`pubkey`
@@ -49,7 +52,9 @@ MANIFEST = {
             "pairs under a scripted byte-level man-in-the-middle and against a rogue endpoint running the real Noise code "
             "with forged payloads, real negotiate_connection over loopback TCP, two real TcpTransports on loopback driven through "
             "the real Transport::open (+negotiate) and Transport::dial with /ip4, /ip6, /dns, /dns4, /dns6 addresses x expected "
-            "peer right / wrong / absent; and a property-level oracle that knows "
+            "peer right / wrong / absent / written in SHA2-256 form (of the listener's key and of another key: PeerId equality is "
+            "structural, dialed_mismatch_any_address_family clauses 5-6: a hashed expectation of an inlined key is always "
+            "PeerIdMismatch, a connection is reported only under the proven id); and a property-level oracle that knows "
             "which identity key signed which static key (recorded by a guarded hook at the moment of signing).",
     "note": "Trusted: Lean kernel; axioms propext/Classical.choice/Quot.sound; the hand-written models and their tie "
             "(sampled/exhaustive differential runs through adapter src/verif/c01.rs); ed25519, X25519, ChaCha20-Poly1305, "
